@@ -30,7 +30,7 @@ def gen_rec(rng, lines, names, fn_declared):
             return ("FN", dig(rng, rng.choice(lines)), n.encode())
     if r < 0.64:
         if fn_declared and rng.random() < 0.93:
-            return ("FNDA", dig(rng, rng.choice([0, 0, 1, 2, 7, U64])), rng.choice(fn_declared).encode())
+            return ("FNDA", dig(rng, rng.choice([0, 0, 1, 2, 7, U64, 2**32, 2**63, 10 * 2**32, 2**32 + 1])), rng.choice(fn_declared).encode())
         if names and rng.random() < 0.5:
             # FNDA before (or without) its FN: the known-finding class
             return ("FNDA", dig(rng, 1), rng.choice(names).encode())
